@@ -164,3 +164,263 @@ Example session_limit_example :
     Ok ([RErr ELimit], [close_frame websocket_CloseMessageTooBig []]) /\
   snd (rfc_receive false 1 [1; 1; 104; 128; 1; 105]%N) = OTooBig.
 Proof. vm_compute. split; reflexivity. Qed.
+
+(* ------------------------------------------------------------------ no panic, from EVERY state *)
+(* advanceFrame never panics: for every reader state whatsoever (any counters, flags, pending
+   error, transport content -- not even well-formed bytes are needed), repaired or pinned code *)
+Lemma mbind_no_panic {A B} (m : mres A) (K : conn -> A -> mres B) :
+  (forall s, m <> MPanic s) -> (forall c a s, K c a <> MPanic s) -> forall s, mbind m K <> MPanic s.
+Proof. intros Hm HK s. destruct m as [c a|c e|s']; cbn [mbind]; [apply HK|discriminate|]. intros _. apply (Hm s' eq_refl). Qed.
+
+Lemma c_readn_no_panic n c s : c_readn n c <> MPanic s.
+Proof. unfold c_readn. destruct (take n (c_in c)) as [[p r]|]; discriminate. Qed.
+
+Lemma hpe_no_panic {A} m c s : @handle_protocol_error A m c <> MPanic s.
+Proof. destruct (@hpe_is_err A m c) as (c' & E). rewrite E. discriminate. Qed.
+
+Lemma af_head_no_panic c s : af_head c <> MPanic s.
+Proof.
+  unfold af_head, c_readn. destruct (take 2 (c_in c)) as [[p r]|] eqn:E; cbn [mbind]; [|discriminate].
+  apply take_app in E as [_ L]. destruct p as [|p0 [|p1 [|? ?]]]; cbn in L; try lia.
+  repeat match goal with
+         | |- (if ?b then _ else _) <> _ => destruct b
+         | |- handle_protocol_error _ _ <> _ => apply hpe_no_panic
+         | |- MOk _ _ <> _ => discriminate
+         end.
+Qed.
+
+Lemma af_len_no_panic fixed c s : af_len fixed c <> MPanic s.
+Proof.
+  unfold af_len. destruct (c_rem c =? 126).
+  { apply mbind_no_panic; [intros; apply c_readn_no_panic|discriminate]. }
+  destruct (c_rem c =? 127); [|discriminate].
+  apply mbind_no_panic; [intros; apply c_readn_no_panic|].
+  intros c0 a s0. destruct (fixed && _); [apply hpe_no_panic|discriminate].
+Qed.
+
+Lemma af_mask_no_panic mask c s : af_mask mask c <> MPanic s.
+Proof.
+  unfold af_mask. destruct (negb _); [apply hpe_no_panic|]. destruct mask; [|discriminate].
+  apply mbind_no_panic; [intros; apply c_readn_no_panic|discriminate].
+Qed.
+
+Lemma af_data_no_panic fixed t c s : af_data fixed t c <> MPanic s.
+Proof. unfold af_data. destruct (_ || _); [destruct (write_control _ _ _)|]; discriminate. Qed.
+
+Lemma af_control_no_panic t c s : af_control t c <> MPanic s.
+Proof.
+  unfold af_control. apply mbind_no_panic.
+  - intros s0. destruct (0 <? c_rem c); [|discriminate].
+    pose proof (c_readn_no_panic (Z.to_nat (c_rem c)) c) as H.
+    destruct (c_readn (Z.to_nat (c_rem c)) c) as [c1 p|c1 e|s1]; try discriminate. exfalso. apply (H s1 eq_refl).
+  - intros c0 payload s0.
+    destruct (t =? websocket_PongMessage); [discriminate|].
+    destruct (t =? websocket_PingMessage).
+    { destruct (handle_ping payload c0) as [c1 [e|]]; discriminate. }
+    destruct (t =? websocket_CloseMessage); [|discriminate].
+    destruct payload as [|b0 [|b1 text]]; try discriminate.
+    destruct (negb _); [apply hpe_no_panic|]. destruct (negb _); [apply hpe_no_panic|discriminate].
+Qed.
+
+Theorem advance_frame_total fixed c s : advance_frame fixed c <> MPanic s.
+Proof.
+  unfold advance_frame. apply mbind_no_panic.
+  - intros s0. unfold af_skip. destruct (0 <? c_rem c); [destruct (skip_n _ _)|]; discriminate.
+  - intros c1 _ s1. apply mbind_no_panic; [intros; apply af_head_no_panic|].
+    intros c2 [[final ft] mask] s2. apply mbind_no_panic; [intros; apply af_len_no_panic|].
+    intros c3 _ s3. apply mbind_no_panic; [intros; apply af_mask_no_panic|].
+    intros c4 _ s4. destruct (_ || _); [apply af_data_no_panic|apply af_control_no_panic].
+Qed.
+
+(* readErrCount is touched by NextReader's tail only *)
+Definition keeps_count {A} (c : conn) (m : mres A) : Prop :=
+  match m with MOk c' _ | MErr c' _ => c_errcount c' = c_errcount c | MPanic _ => True end.
+
+Lemma keeps_bind {A B} c (m : mres A) (K : conn -> A -> mres B) :
+  keeps_count c m -> (forall c1 a, c_errcount c1 = c_errcount c -> keeps_count c (K c1 a)) -> keeps_count c (mbind m K).
+Proof. intros Hm HK. destruct m as [c1 a|c1 e|s]; cbn [mbind]; [apply HK; exact Hm|exact Hm|exact I]. Qed.
+
+Lemma keeps_readn n c0 c : c_errcount c = c_errcount c0 -> keeps_count c0 (c_readn n c).
+Proof. intros H. unfold c_readn. destruct (take n (c_in c)) as [[p r]|]; cbn; exact H. Qed.
+
+Lemma wc_count t d c : c_errcount (fst (write_control t d c)) = c_errcount c.
+Proof. unfold write_control. destruct (negb _); [reflexivity|]. destruct (_ <? _); [reflexivity|]. destruct (c_wclosed c); reflexivity. Qed.
+
+Lemma keeps_hpe {A} m c0 c : c_errcount c = c_errcount c0 -> @keeps_count A c0 (handle_protocol_error m c).
+Proof.
+  intros H. unfold handle_protocol_error. pose proof (wc_count websocket_CloseMessage (format_close websocket_CloseProtocolError m) c) as W.
+  destruct (write_control _ _ c) as [c' n]. cbn in *. congruence.
+Qed.
+
+Lemma advance_frame_count fixed c : keeps_count c (advance_frame fixed c).
+Proof.
+  unfold advance_frame. apply keeps_bind.
+  { unfold af_skip. destruct (0 <? c_rem c); [destruct (skip_n _ _)|]; reflexivity. }
+  intros c1 _ H1. apply keeps_bind.
+  { unfold af_head. apply keeps_bind; [apply keeps_readn; exact H1|].
+    intros c2 p H2. destruct p as [|p0 [|p1 [|? ?]]]; try exact I.
+    repeat match goal with
+           | |- keeps_count _ (if ?b then _ else _) => destruct b
+           | |- keeps_count _ (handle_protocol_error _ _) => apply keeps_hpe; cbn; exact H2
+           | |- keeps_count _ (MOk _ _) => cbn; exact H2
+           end. }
+  intros c2 [[final ft] mask] H2. apply keeps_bind.
+  { unfold af_len. destruct (c_rem c2 =? 126).
+    - apply keeps_bind; [apply keeps_readn; exact H2|]. intros c3 p H3. cbn. exact H3.
+    - destruct (c_rem c2 =? 127); [|cbn; exact H2].
+      apply keeps_bind; [apply keeps_readn; exact H2|]. intros c3 p H3.
+      destruct (fixed && _); [apply keeps_hpe; cbn; exact H3|cbn; exact H3]. }
+  intros c3 _ H3. apply keeps_bind.
+  { unfold af_mask. destruct (negb _); [apply keeps_hpe; exact H3|]. destruct mask; [|cbn; exact H3].
+    apply keeps_bind; [apply keeps_readn; exact H3|]. intros c4 p H4. cbn. exact H4. }
+  intros c4 _ H4. destruct (_ || _).
+  - unfold af_data. destruct (_ || _); [|cbn; exact H4].
+    pose proof (wc_count websocket_CloseMessage (format_close websocket_CloseMessageTooBig []) (set_len c4 (zi64 (c_len c4 + c_rem c4)))) as W.
+    destruct (write_control _ _ _) as [c' n]. cbn in *. congruence.
+  - unfold af_control. apply keeps_bind.
+    { destruct (0 <? c_rem c4); [|cbn; exact H4].
+      pose proof (keeps_readn (Z.to_nat (c_rem c4)) c c4 H4) as R.
+      destruct (c_readn _ c4) as [c5 p|c5 e|s]; cbn in *; auto. }
+    intros c5 payload H5.
+    destruct (ft =? websocket_PongMessage); [cbn; exact H5|].
+    destruct (ft =? websocket_PingMessage).
+    { unfold handle_ping. pose proof (wc_count websocket_PongMessage payload c5) as W.
+      destruct (write_control _ _ c5) as [c' n]. cbn in W. destruct (n =? 2)%N; cbn; congruence. }
+    destruct (ft =? websocket_CloseMessage); [|cbn; exact H5].
+    assert (HC : forall code, c_errcount (handle_close code c5) = c_errcount c).
+    { intros code. unfold handle_close. rewrite wc_count. exact H5. }
+    destruct payload as [|b0 [|b1 text]]; try (cbn; apply HC).
+    destruct (negb _); [apply keeps_hpe; exact H5|]. destruct (negb _); [apply keeps_hpe; exact H5|]. cbn. apply HC.
+Qed.
+
+Lemma next_reader_loop_ok fuel fixed : forall c,
+  match next_reader_loop fuel fixed c with
+  | Ok (c', r) => c_errcount c' = c_errcount c /\ (r = None -> c_err c' <> None)
+  | Err _ => True
+  | Panic _ => False
+  end.
+Proof.
+  induction fuel as [|f IH]; intros c; cbn [next_reader_loop].
+  - destruct (c_err c) eqn:E; [|exact I]. split; [reflexivity|]. intros _. congruence.
+  - destruct (c_err c) eqn:E. { split; [reflexivity|]. intros _. congruence. }
+    pose proof (advance_frame_total fixed c) as T. pose proof (advance_frame_count fixed c) as K.
+    destruct (advance_frame fixed c) as [c1 t|c1 e|s]; [| |exact (T s eq_refl)].
+    + cbn in K. destruct (is_data t). { split; [exact K|discriminate]. }
+      specialize (IH c1). destruct (next_reader_loop f fixed c1) as [[c2 r]| |]; auto.
+      destruct IH as [I1 I2]. split; [congruence|exact I2].
+    + cbn in K. split; [exact K|]. intros _. cbn. discriminate.
+Qed.
+
+Lemma read_all_ok fuel fixed : forall c acc,
+  match read_all fuel fixed c acc with
+  | Ok (c', _) => c_errcount c' = c_errcount c
+  | Err _ => True
+  | Panic _ => False
+  end.
+Proof.
+  induction fuel as [|f IH]; intros c acc; cbn [read_all]; [exact I|].
+  destruct (c_err c); [reflexivity|].
+  destruct (0 <? c_rem c).
+  { destruct (split_at _ _ _) as [[p rest]|]; [|reflexivity].
+    specialize (IH (set_rem (set_in c rest) 0) ((if c_server c then mask_bytes (c_key c) 0 p else p) :: acc)).
+    destruct (read_all f fixed _ _) as [[c' r]| |]; auto. }
+  destruct (c_final c); [reflexivity|].
+  pose proof (advance_frame_total fixed c) as T. pose proof (advance_frame_count fixed c) as K.
+  destruct (advance_frame fixed c) as [c1 t|c1 e|s]; [| |exact (T s eq_refl)]; cbn in K.
+  - destruct (is_data t).
+    + specialize (IH (set_err c1 (Some EInternal)) acc). destruct (read_all f fixed _ _) as [[c' r]| |]; auto.
+      cbn in IH. congruence.
+    + specialize (IH c1 acc). destruct (read_all f fixed _ _) as [[c' r]| |]; auto. congruence.
+  - specialize (IH (set_err c1 (Some e)) acc). destruct (read_all f fixed _ _) as [[c' r]| |]; auto.
+    cbn in IH. congruence.
+Qed.
+
+(* one ReadMessage / NextReader from ANY state with fewer than 999 failed calls behind it *)
+Lemma read_message_ok fixed c : c_errcount c + 1 < repeat_limit ->
+  match read_message fixed c with
+  | Ok (c', RMsg _ _) => c_errcount c' = c_errcount c
+  | Ok (c', RErr _) => c_errcount c' <= c_errcount c + 1
+  | Err _ => True
+  | Panic _ => False
+  end.
+Proof.
+  intros Hc. unfold read_message.
+  pose proof (next_reader_loop_ok (S (S (length (c_in c)))) fixed (set_len c 0)) as N.
+  destruct (next_reader_loop _ fixed (set_len c 0)) as [[c1 [t|]]| |]; cbn [bind]; auto.
+  - destruct N as [N1 _]. cbn in N1.
+    pose proof (read_all_ok (S (S (length (c_in c))) + S (S (length (c_in c)))) fixed c1 []) as A.
+    destruct (read_all _ fixed c1 []) as [[c2 [chunks|e]]| |]; cbn [bind]; auto; lia.
+  - destruct N as [N1 N2]. cbn in N1. unfold next_reader_fail. cbn [c_errcount set_errcount].
+    replace (repeat_limit <=? c_errcount c1 + 1) with false by (symmetry; apply Z.leb_gt; lia).
+    cbn [c_err set_errcount]. destruct (c_err c1) eqn:E; [cbn; lia|]. apply N2; reflexivity.
+Qed.
+
+Lemma next_reader_only_ok fixed c : c_errcount c + 1 < repeat_limit ->
+  match next_reader_only fixed c with
+  | Ok (c', RMsg _ _) => c_errcount c' = c_errcount c
+  | Ok (c', RErr _) => c_errcount c' <= c_errcount c + 1
+  | Err _ => True
+  | Panic _ => False
+  end.
+Proof.
+  intros Hc. unfold next_reader_only.
+  pose proof (next_reader_loop_ok (S (S (length (c_in c)))) fixed (set_len c 0)) as N.
+  destruct (next_reader_loop _ fixed (set_len c 0)) as [[c1 [t|]]| |]; cbn [bind]; auto.
+  - destruct N as [N1 _]. exact N1.
+  - destruct N as [N1 N2]. cbn in N1. unfold next_reader_fail. cbn [c_errcount set_errcount].
+    replace (repeat_limit <=? c_errcount c1 + 1) with false by (symmetry; apply Z.leb_gt; lia).
+    cbn [c_err set_errcount]. destruct (c_err c1) eqn:E; [cbn; lia|]. apply N2; reflexivity.
+Qed.
+
+Lemma read_extra_ok fixed extra : forall c acc, c_errcount c + Z.of_nat extra < repeat_limit ->
+  forall s, read_extra extra fixed c acc <> Panic s.
+Proof.
+  induction extra as [|n IH]; intros c acc Hc s; cbn [read_extra]; [discriminate|].
+  pose proof (read_message_ok fixed c ltac:(lia)) as M.
+  destruct (read_message fixed c) as [[c1 [t p|e]]| |]; cbn [bind]; try discriminate; try contradiction.
+  - apply IH. lia.
+  - apply IH. lia.
+Qed.
+
+Lemma read_loop_ok fixed extra fuel : forall c acc, c_errcount c = 0 -> (Z.of_nat extra + 1 < repeat_limit) ->
+  forall s, read_loop fuel extra fixed c acc <> Panic s.
+Proof.
+  induction fuel as [|f IH]; intros c acc Hc Hex s; cbn [read_loop]; [discriminate|].
+  pose proof (read_message_ok fixed c ltac:(unfold repeat_limit; lia)) as M.
+  destruct (read_message fixed c) as [[c1 [t p|e]]| |]; cbn [bind]; try discriminate; try contradiction.
+  - apply IH; [lia|exact Hex].
+  - apply read_extra_ok. lia.
+Qed.
+
+Lemma read_loop_pat_ok fixed fuel : forall pat c acc, c_errcount c = 0 ->
+  forall s, read_loop_pat fuel fixed pat c acc <> Panic s.
+Proof.
+  induction fuel as [|f IH]; intros pat c acc Hc s; cbn [read_loop_pat]; [discriminate|].
+  pose proof (read_message_ok fixed c ltac:(unfold repeat_limit; lia)) as M.
+  pose proof (next_reader_only_ok fixed c ltac:(unfold repeat_limit; lia)) as N.
+  destruct (match pat with b :: _ => b | [] => false end).
+  - destruct (next_reader_only fixed c) as [[c1 [t p|e]]| |]; cbn [bind]; try discriminate; try contradiction.
+    apply IH. lia.
+  - destruct (read_message fixed c) as [[c1 [t p|e]]| |]; cbn [bind]; try discriminate; try contradiction.
+    apply IH. lia.
+Qed.
+
+(* No panic for ANY transport content (not even well-formed bytes are assumed), any limit, both
+   roles, repaired or pinned code, any pattern of read / abandoned messages, fewer than 999 calls
+   after the failure. *)
+Theorem ws_read_total_all fixed server limit extra inp s :
+  (extra < 999)%nat -> lib_session fixed server limit extra inp <> Panic s.
+Proof.
+  intros Hex. unfold lib_session.
+  pose proof (read_loop_ok fixed extra (S (length inp)) (new_conn server limit inp) [] eq_refl
+                ltac:(unfold repeat_limit; lia)) as R.
+  destruct (read_loop _ extra fixed _ []) as [[c rs]| |]; cbn [bind]; try discriminate. exfalso. exact (R site eq_refl).
+Qed.
+
+Theorem ws_read_pat_total fixed server limit pat inp s :
+  lib_session_pat fixed server limit pat inp <> Panic s.
+Proof.
+  unfold lib_session_pat.
+  pose proof (read_loop_pat_ok fixed (S (length inp)) pat (new_conn server limit inp) [] eq_refl) as R.
+  destruct (read_loop_pat _ fixed pat _ []) as [[c rs]| |]; cbn [bind]; try discriminate. exfalso. exact (R site eq_refl).
+Qed.
